@@ -54,9 +54,9 @@ TOLERANCES = {'covariance entries (relative to max(1,|v|))': TOL, 'lambda range'
               'inputs unchanged': 'bit-identical'}
 BOUNDS = {
     'quick': {'n_cond': [1, 2, 3], 'n_obs_max': 7, 'channels': [1, 2, 3, 5], 'orders': 'label sequences',
-              'fills': {'int': 1, 'gauss': 1}, 'alphabet_residuals_nP_max': 6, 'alphabet_datasets_nP_max': 4},
+              'fills': {'int': 1, 'gauss': 1}, 'alphabet_residuals_nP_max': 8, 'alphabet_datasets_nP_max': 4},
     'thorough': {'n_cond': [1, 2, 3], 'n_obs_max': 7, 'channels': [1, 2, 3, 5], 'orders': 'all permutations',
-                 'fills': {'int': 3, 'gauss': 3}, 'alphabet_residuals_nP_max': 8, 'alphabet_datasets_nP_max': 6},
+                 'fills': {'int': 2, 'gauss': 2}, 'alphabet_residuals_nP_max': 10, 'alphabet_datasets_nP_max': 6},
 }
 
 PS = [1, 2, 3, 5]
@@ -120,7 +120,7 @@ def orders(reps, tier):
 
 
 def value_kinds(tier):
-    k = 3 if tier == 'thorough' else 1
+    k = 2 if tier == 'thorough' else 1
     return [{'kind': 'int', 'fill': f} for f in range(k)] + [{'kind': 'gauss', 'fill': f} for f in range(k)]
 
 
@@ -135,7 +135,7 @@ def combos(family):
 
 def _alpha_shapes_res(tier):
     lim = BOUNDS[tier]['alphabet_residuals_nP_max']
-    return [(n, p) for p in (1, 2, 3) for n in range(2, N_MAX + 1) if n * p <= lim]
+    return [(n, p) for p in PS for n in range(2, N_MAX + 1) if n * p <= lim]
 
 
 def _alpha_shapes_ds(tier):
@@ -150,7 +150,7 @@ def shards(tier, seed):
             out.append({'kind': 'res', 'n': n, 'P': p})
     for n, p in _alpha_shapes_res(tier):
         total = len(ALPHA) ** (n * p)
-        step = 243
+        step = 729 if total > 10000 else 243
         for a in range(0, total, step):
             out.append({'kind': 'res_alpha', 'n': n, 'P': p, 'range': [a, min(total, a + step)]})
     for reps in designs():
